@@ -14,7 +14,7 @@ TRUSTED_EXTRA = ["C09: 'different seeds give different chains' and the stream la
 ASSUMPTIONS = ["max_time is excluded (clock-dependent by definition)"]
 
 
-def make_run(bseed, cfg, tmp, tag, P=None, ext="h5", diagnostic=False, progressbar=False, visual=False, animate=False, clock=None, seed=None):
+def make_run(bseed, cfg, tmp, tag, P=None, ext="h5", diagnostic=False, progressbar=False, visual=False, animate=False, clock=None, seed=None, used_before=False):
     _, S, MM, D = _hm()
     r = random.Random(bseed)
     dist, tstr, bstr, tdesc, lb, ub = make_target(r, cfg["target"], cfg["d"], cfg["boxed"])
@@ -29,6 +29,13 @@ def make_run(bseed, cfg, tmp, tag, P=None, ext="h5", diagnostic=False, progressb
         kw.update(mass_matrix=mass, integrator=("lf" if visual else cfg["integrator"]), amount_of_steps=cfg["n"], randomize_stepsize=cfg["randomize"])
     fn = os.path.join(tmp, f"r{tag}.{ext}")
     ctx = patched_clock(clock) if clock is not None else _null()
+    if used_before:
+        # the very distribution and mass-matrix objects of this run have been used by other samplers (other seeds) before
+        with quiet(), np.errstate(all="ignore"):
+            for k, oseed in enumerate((sd + 12345, sd + 777)):
+                o = cls(seed=oseed, animate_proposals=False) if visual else cls(seed=oseed)
+                o.sample(os.path.join(tmp, f"r{tag}_other{k}.{ext}"), dist, initial_model=q0.copy(), proposals=3 + k, overwrite_existing_file=True,
+                         disable_progressbar=True, **kw)
     with quiet(), np.errstate(all="ignore"), ctx:
         s.sample(fn, dist, initial_model=q0.copy(), proposals=P or cfg["P"], online_thinning=cfg["t"], overwrite_existing_file=True,
                  disable_progressbar=not progressbar, diagnostic_mode=diagnostic, **kw)
@@ -73,7 +80,7 @@ def run(tier, seed):
     findings = []
     _, S, MM, D = _hm()
     st = Suite("C09.observers", "metamorphic pairs on the implementation: same seed/target/tuning with perturbed global numpy RNG state and unrelated library "
-               "activity, swapped back end, diagnostic mode, progress bar, visual samplers (animated or not), fast/slow/non-monotone clocks; prefix pairs; "
+               "activity, distribution and mass-matrix objects already used by other samplers, swapped back end, diagnostic mode, progress bar, visual samplers (animated or not), fast/slow/non-monotone clocks; prefix pairs; "
                "byte-identical arrays required; non-trivial = pair whose base run has >= 1 accept and >= 1 reject")
     with scratch() as tmp:
         for ci in range(24 if thorough else 7):
@@ -88,6 +95,7 @@ def run(tier, seed):
             nontrivial = 1 < moved < base.shape[1] or moved > 1
             variants = [
                 ("global-rng+unrelated-activity", dict()),
+                ("objects-used-by-other-samplers-before", dict(used_before=True)),
                 ("backend=npy", dict(ext="npy")),
                 ("diagnostic_mode", dict(diagnostic=True)),
                 ("progressbar", dict(progressbar=True)),
@@ -99,7 +107,7 @@ def run(tier, seed):
                 if cfg["sampler"] == "HMC":
                     variants.append(("visual+animation", dict(visual=True, animate=True)))
             if not thorough:
-                variants = variants[:2] + rnd.sample(variants[2:], 2)
+                variants = variants[:3] + rnd.sample(variants[3:], 2)
             for vi, (vname, kw) in enumerate(variants):
                 unrelated_activity(rnd)
                 if "visual" in vname:
